@@ -78,7 +78,7 @@ def handleLine (prop : String) (st : DState) (line : String) : DState × String 
         let b := projectObs prop reqCore (normCerr (normPanic m))
         if a = b then (if prop = "C02" then (structDiffC02 reqCore obs).map ("DIFF " ++ ·) else none)
         else some s!"DIFF impl=[{a}] model=[{b}]"
-    let (st', pc) := if prop = "C02" then (st, checkC02 reqParts obs) else propCheck prop st reqParts obs
+    let (st', pc) := if prop = "C02" then (st, checkC02 reqParts obs) else if prop = "C09" then (st, checkC09Sem reqParts obs) else propCheck prop st reqParts obs
     (st', match pc, diff with
     | some why, some d => s!"PFAIL {prop} {why} ;; {d}"
     | some why, none => s!"PFAIL {prop} {why}"
